@@ -1317,8 +1317,12 @@ func (s *c15Sess) validity() {
 		return
 	}
 	if len(before.Errs) > 0 {
-		s.find("host-unreadable:bug", fmt.Sprintf("at the end of the session %d bug(s)/attachment(s) are unreadable on the host: %s", len(before.Errs), before.Errs[0]))
+		// A bug that git-bug itself cannot read at the end of the session (for instance after a wipe or a removal
+		// that failed half-way) is not what this property is about: C15 only demands that stock git's gc, clone
+		// and fetch do not take anything away. Recorded, and the comparison below is relative to this state.
+		s.seen("unreadable_on_host_before_gc(not judged here)", c15ErrClass(before.Errs[0]))
 	}
+	cliWorkedBeforeGc := s.cli("bug") == "ok"
 	nFiles := 0
 	for _, f := range before.Files {
 		nFiles += len(f)
@@ -1341,8 +1345,8 @@ func (s *c15Sess) validity() {
 		s.fsck("host after gc", s.host)
 		// the CLI still works on the gc'ed repository and leaves the host alone
 		sn1 := s.snapshot()
-		if out := s.cli("bug"); out != "ok" {
-			s.find("cli-fails-after-gc", "`git-bug bug` after git gc --prune=now: "+out)
+		if out := s.cli("bug"); out != "ok" && cliWorkedBeforeGc {
+			s.find("cli-fails-after-gc", "`git-bug bug` worked before and fails after git gc --prune=now: "+out)
 		}
 		s.compare("cli `bug` after gc", sn1, s.snapshot())
 		_ = snBefore
